@@ -415,6 +415,10 @@ type qpBase struct {
 	cfgStream, cfgConn, cfgBidi, cfgUni int64 // raw Config values
 	seed                                uint64
 	qlog                                bool
+	// C20 send side: the fake peer's transport parameters (nil: permissive) and
+	// Config.MaxStreamWriteBufferSize
+	peerTP   func(*transportParameters)
+	writeBuf int64
 }
 
 func (b qpBase) String() string {
@@ -468,6 +472,8 @@ type qpRun struct {
 	connAckMin packetNumber // smallest number in the conn's most recent 1-RTT ACK frame
 
 	outLog []string // frames seen in the current step (for the trace)
+
+	send *qsState // C20 send side (TestVerif_C20_send)
 }
 
 func (r *qpRun) setViol(v *vs.Violation) {
@@ -504,6 +510,7 @@ func newQpRun(t *testing.T, tr *vs.Trace, focus string, b qpBase) *qpRun {
 		c.MaxConnReadBufferSize = b.cfgConn
 		c.MaxBidiRemoteStreams = b.cfgBidi
 		c.MaxUniRemoteStreams = b.cfgUni
+		c.MaxStreamWriteBufferSize = b.writeBuf
 		c.MaxIdleTimeout = -1
 		if r.ql != nil {
 			c.QLogLogger = slog.New(r.ql)
@@ -511,7 +518,11 @@ func newQpRun(t *testing.T, tr *vs.Trace, focus string, b qpBase) *qpRun {
 			c.QLogLogger = nil
 		}
 	}
-	r.tc = newTestConn(t, b.side, cfgOpt, permissiveTransportParameters)
+	peerTP := b.peerTP
+	if peerTP == nil {
+		peerTP = permissiveTransportParameters
+	}
+	r.tc = newTestConn(t, b.side, cfgOpt, peerTP)
 	// The conn's PRNG (only used to choose which packet numbers to skip) is seeded
 	// from crypto/rand; reseed it from the plan before any 1-RTT packet exists.
 	r.tc.conn.runOnLoop(context.Background(), func(now time.Time, c *Conn) {
@@ -622,6 +633,9 @@ func (r *qpRun) observe(d *testDatagram) {
 }
 
 func (r *qpRun) onFrame(space numberSpace, pn packetNumber, f debugFrame) {
+	if r.send != nil && space == appDataSpace {
+		r.send.onConnFrame(pn, f)
+	}
 	switch f := f.(type) {
 	case debugFramePadding, debugFramePing:
 		return
